@@ -11,7 +11,13 @@
    Rust containers: `visited: HashSet<VertexId>` is used only through contains / insert / clear and
    is a list here; a `Vec` used as a stack (`push` / `pop`) is a list whose HEAD is the last pushed
    element.  `dst_vertex_id(&edge)?` / `src_vertex_id(&edge)?` keep their error path
-   (EdgeNotFound).  The recursion of depth_first_search runs on explicit fuel = recursion depth;
+   (EdgeNotFound).  Since /repo 5cf0f14 (fixed defect D-SCC-STACK) the two searches are ITERATIVE: they keep
+   explicit frames (vertex, its incident edge ids, position of the next edge), mark a vertex visited
+   when its frame is pushed and push it on the output stack when its edge list is exhausted.  That
+   is the recursion below unrolled: [dfs] marks v, runs through `incident v` in order descending
+   into every unvisited end point, then pushes v - same visiting order, same finishing order, same
+   output (the tie is measured by the scc stream, I = M on every case).  The model keeps the
+   recursive form, on explicit fuel = nesting depth of the frames;
    Proofs/SccDfs.v (dfs_fuel) and Proofs/SccKosaraju.v show that any fuel > n_vertices is enough. *)
 From Coq Require Import List Arith Bool String.
 From RC Require Import Base.Res.
